@@ -200,6 +200,8 @@ spif_regexp_compile(spif_regexp_t self)
     if (self->data != (spif_ptr_t) NULL) {
         FREE(self->data);
     }
+    /* An object made by spif_regexp_new() (or emptied by done) has no pattern to compile. */
+    REQUIRE_RVAL(!SPIF_PTR_ISNULL(SPIF_STR(self)->s), FALSE);
 #if LIBAST_REGEXP_SUPPORT_PCRE
     {
         const char *errptr;
